@@ -44,7 +44,8 @@ func procC07(t *Target, tier string, r *Result) {
 			ww.Ops = []string{"SetS(" + name + ")", "SetO", "From"}
 			if res.Panicked {
 				r.outcome("from/panic")
-				continue // C05/C06 report panics
+				r.violate("from/panic", panicShape(t, tgt), "CopyFrom panics, the oneof cannot hold the chosen branch: "+res.Panic, ww)
+				continue
 			}
 			if len(res.errs()) > 0 {
 				r.outcome("from/error")
